@@ -21,24 +21,37 @@ func init() {
 		for ply := int64(0); ply < 64; ply++ {
 			s.Instances = append(s.Instances, run.Instance{Pkg: "search", Func: "VpH_C07_pv", Params: map[string]int64{"ply": ply}})
 		}
-		k := 2
+		k := 3
 		if tier == "thorough" {
-			k = 3
+			k = 4
 		}
-		setup := wrapTimeStubs(func(x *vexec.Exec, w *run.World) {
-			bT := w.Pkgs[run.ModPath+"/board"].Type("Board").Type()
-			sT := w.Pkgs[run.ModPath+"/search"].Type("Search").Type()
-			a := &absSearch{w: w, boardT: bT, searchT: sT, posIx: fieldIx(bT, "fullMoves"), stmIx: fieldIx(bT, "STM"), abortIx: fieldIx(sT, "aborted"), pvIx: fieldIx(sT, "pv"), writePV: true}
-			a.install(x, true, false, func(string, *sym.Term, *sym.Term) {})
-			a.observePrints(x)
-		})
-		if tier == "diagnostic" {
-			// adoption logic against contracts: did not close (monotonicity query unknown after 300 s, two obligations with
-			// counterexamples against the contracts that no real search confirms) - kept for further work, not registered
-			s.Instances = append(s.Instances, run.Instance{Pkg: "search", Func: "VpH_C07_deepen",
-				Opt: run.Options{Abstract: true, Setup: setup, LoopBound: k, UnwindMode: "assume", PanicMode: "ignore", TimeoutMs: 300000}})
+		mkSetup := func() func(x *vexec.Exec, w *run.World) {
+			return wrapTimeStubs(func(x *vexec.Exec, w *run.World) {
+				bT := w.Pkgs[run.ModPath+"/board"].Type("Board").Type()
+				sT := w.Pkgs[run.ModPath+"/search"].Type("Search").Type()
+				a := &absSearch{w: w, boardT: bT, searchT: sT, posIx: fieldIx(bT, "fullMoves"), stmIx: fieldIx(bT, "STM"), abortIx: fieldIx(sT, "aborted"), pvIx: fieldIx(sT, "pv"), writePV: true}
+				a.install(x, true, false, func(string, *sym.Term, *sym.Term) {})
+				a.observePrints(x)
+			})
 		}
-		_ = append(s.Bounds, "adoption logic: the real iterativeDeepen for up to 2 (quick) / 3 (thorough) iterations and aspiration retries each, alphaBeta replaced by its contract (arbitrary score, arbitrary line of 0..3 moves in row 0, node counter does not decrease, may abort), info lines observed at fmt.Fprintf")
+		s.Instances = append(s.Instances, run.Instance{Pkg: "search", Func: "VpH_C07_deepen",
+			Opt: run.Options{Abstract: true, Setup: mkSetup(), LoopBound: k, UnwindMode: "assume", PanicMode: "ignore", TimeoutMs: 300000}})
+		for _, ply := range []int64{0, 1, 7, 62} {
+			setup := func(x *vexec.Exec, w *run.World) {
+				bT := w.Pkgs[run.ModPath+"/board"].Type("Board").Type()
+				sT := w.Pkgs[run.ModPath+"/search"].Type("Search").Type()
+				a := &absSearch{w: w, boardT: bT, searchT: sT, posIx: fieldIx(bT, "fullMoves"), stmIx: fieldIx(bT, "STM"), abortIx: fieldIx(sT, "aborted"), pvIx: fieldIx(sT, "pv")}
+				a.install(x, true, true, func(string, *sym.Term, *sym.Term) {})
+				a.observeInserts(x)
+			}
+			s.Instances = append(s.Instances, run.Instance{Pkg: "search", Func: "VpH_C07_alphabeta", Params: map[string]int64{"ply": ply},
+				Opt: run.Options{Abstract: true, Setup: setup, LoopBound: 2, UnwindMode: "assume", PanicMode: "ignore", TimeoutMs: 300000}})
+		}
+		s.Confirm = &ConfirmRun{"search", "VpV_C07_sweep", "VpV_C07_case"}
+		s.Bounds = append(s.Bounds,
+			"adoption logic: the real iterativeDeepen for up to 3 (quick) / 4 (thorough) iterations and aspiration retries each, alphaBeta replaced by its contract (arbitrary score, arbitrary line of 0..3 non-null moves in row 0, node counter does not decrease, may abort), arbitrary soft limits and clock readings, info lines observed at fmt.Fprintf",
+			"PV discipline of one real alphaBeta activation at ply 0, 1, 7, 62 from an arbitrary (stale) own row, under the abstract-position contracts (2 moves per move loop): the row is empty on return unless this activation inserted; inserts go to the own ply with the move just searched",
+			"counterexamples against the activation contracts are reported only after the native confirmation sweep (real searches, fresh and warmed tables, low-clock and repetition roots) reproduces a failure of the property's statement; otherwise INCONCLUSIVE")
 		return s
 	}
 	Reg["C08"] = func(tier string, seed int64) *Spec {
@@ -55,6 +68,16 @@ func init() {
 			},
 		}
 		s.Instances = append(s.Instances, run.Instance{Pkg: "search", Func: "VpH_C08_budget"})
+		s.Instances = append(s.Instances, run.Instance{Pkg: "search", Func: "VpH_C08_deepen",
+			Opt: run.Options{Abstract: true, LoopBound: 3, UnwindMode: "assume", PanicMode: "ignore", TimeoutMs: 300000,
+				Setup: wrapTimeStubs(func(x *vexec.Exec, w *run.World) {
+					bT := w.Pkgs[run.ModPath+"/board"].Type("Board").Type()
+					sT := w.Pkgs[run.ModPath+"/search"].Type("Search").Type()
+					a := &absSearch{w: w, boardT: bT, searchT: sT, posIx: fieldIx(bT, "fullMoves"), stmIx: fieldIx(bT, "STM"), abortIx: fieldIx(sT, "aborted"), pvIx: fieldIx(sT, "pv"), writePV: true}
+					a.install(x, true, false, func(string, *sym.Term, *sym.Term) {})
+					a.observePrints(x)
+				})}})
+		s.Bounds = append(s.Bounds, "soft limits: the real iterativeDeepen (3 iterations and aspiration retries, alphaBeta under contract, arbitrary soft node/time limits, clock and node counts): a search that stops at a soft limit has a best move, so the hard-budget replay of the reached node count takes the same exit; contract-level counterexamples are reported only if the native soft/hard replay sweep reproduces a difference")
 		if tier == "diagnostic" {
 			// abort-before-store on the activation contracts: NOT part of the registered check. On the unchanged tree
 			// quiescence stores a bound after a child was aborted (the beta cut-off is tested before the abort poll), so
